@@ -133,7 +133,7 @@ static void caller (void *a) {
 		r = deep_call (3, use_mu, dl, nobj, pw);
 		vrt_note ("ret %d %d", vrt_self (), r);
 		if (use_mu && (vrt_sh_get (UNLOCKS (vrt_self ())) - u0) != (vrt_sh_get (LOCKS (vrt_self ())) - l0)) vrt_fail ("C11", "unlock/lock callbacks unbalanced");
-		if (use_mu && vrt_holders (&mu, 1) != 1) vrt_fail ("C11", "nsync_wait_n returned without holding the mutex");
+		if (use_mu && vrt_holders (&mu, 1) != 1) vrt_fail ("C01", "nsync_wait_n returned without having re-acquired the mutex: the caller believes it holds it");
 	}
 	if (r < 0 || r > nobj) vrt_fail ("C11", "result %d out of range", r);
 	if (r < nobj) {
